@@ -88,11 +88,41 @@ def make_prior(cfg, ssm, tcoeffs, scale_vec, std_vec=None):
     if cfg.get("diffuse", 0):
         kw["diffuse_eps"] = cfg.get("diffuse_eps", 1.0)
     init = cfg.get("init", "exact")
-    if init == "exact":
-        return ssm.prior_wiener_integrated(tc, is_exact=True, **kw)
-    if init == "inexact":
-        return ssm.prior_wiener_integrated(tc, is_exact=False, inexact_eps=cfg.get("inexact_eps", 1e-3), **kw)
-    raise ValueError(init)
+    ikw = dict(is_exact=True) if init == "exact" else dict(is_exact=False, inexact_eps=cfg.get("inexact_eps", 1e-3))
+    kind = cfg.get("prior", "iwp")
+    if kind == "iwp":
+        return ssm.prior_wiener_integrated(tc, **ikw, **kw)
+    if kind == "ou":
+        d = tcoeffs.shape[1]
+        Mj = jnp.asarray(OU_DRIFT[:d, :d])
+        return ssm.prior_ornstein_uhlenbeck_integrated(lambda x: Mj @ x, tc, **ikw, **kw)
+    if kind == "matern":
+        return ssm.prior_matern(MATERN_LENGTH, tc, **ikw, **kw)
+    raise ValueError(kind)
+
+
+OU_DRIFT = np.array([[-0.5, -2.0, 0.0], [2.0, -0.25, 0.0], [0.0, 0.0, -3.0]])
+MATERN_LENGTH = 0.75
+
+
+def sde_matrices(kind, q, d):
+    """Dense drift matrix F and the un-scaled dispersion selector of the exponential priors (coefficient-major)."""
+    from math import comb
+
+    n = (q + 1) * d
+    F = np.zeros((n, n))
+    for i in range(q):
+        F[i * d:(i + 1) * d, (i + 1) * d:(i + 2) * d] = np.eye(d)
+    if kind == "ou":
+        F[-d:, -d:] = OU_DRIFT[:d, :d]
+    elif kind == "matern":
+        D = q + 1
+        lam = np.sqrt(2 * (D - 0.5)) / MATERN_LENGTH
+        for i in range(D):
+            F[-d:, i * d:(i + 1) * d] = -comb(D, i) * lam ** (D - i) * np.eye(d)
+    else:
+        raise ValueError(kind)
+    return F
 
 
 def init_std(cfg, q, d):
